@@ -1150,7 +1150,7 @@ static void h_c_errfunc(const char *cmd, cfg_t *cfg)
 
 	if (h_bad)
 		return;
-	H_LIB(cfg_set_error_function(cfg, k ? h_errfunc_alt : h_errfunc));
+	H_LIB(cfg_set_error_function(cfg, k == 2 ? NULL : k ? h_errfunc_alt : h_errfunc));	/* 2: the built-in printer (stderr) */
 	h_std(cmd, "rc=ok");
 }
 
